@@ -34,7 +34,7 @@ MANIFEST = dict(
          "table of every open/stat/opendir/mkstemp/unlink/fork/exec call site of the compiled sources (clang AST of all translation units, "
          "data-flow classification of the path argument), re-proved guarded on every run (C10_sites_guarded, C10_fields_guarded, C10_argv_tie), together with the generated list of every path buffer variable and its storage class, all automatic, so no context or thread can open a path another one resolved (C10_path_buffers_automatic). "
          "The models are tied to the C by differential correspondence on adversarial names and real directories, and a link-time interposition "
-         "oracle judges every OS call made during loads of generated hostile modules from all entry points, including two contexts loading multi-file modules from different directories in two threads with interleavings forced at the companion opens (judged per thread; thorough tier repeats them under ThreadSanitizer).",
+         "oracle judges every OS call made during loads of generated hostile modules from all entry points, including two contexts loading multi-file modules from different directories in two threads with interleavings forced at the companion opens (judged per thread; thorough tier repeats them under ThreadSanitizer), and histories of load attempts on one context (every entry point, every kind of outcome, with and without release or a player run) in which each step is judged by the same oracle; the context-history model (C10_history_inv, C10_history_fields, C10_history_stream_loads: the directory a load may open from depends only on that load's own entry point and path) is compared with the real m->dirname/m->basename after every step.",
     note="Trusted: Lean kernel (propext/Classical.choice/Quot.sound), the hand-written model XmpModel/PathSafe.lean, tools/gen_open_sites.py "
          "(clang JSON AST + an intra-procedural provenance classifier that is conservative: unknown writes to a path buffer become class "
          "`other` and fail the theorem), the harnesses and the differ. Modelled-not-verified: readdir never returns names with '/', C locale "
@@ -48,7 +48,8 @@ NS = "Xmp.PathSafe."
 REQUIRED = [NS + t for t in (
     "C10_sanitised", "C10_sanitised_one_colon", "C10_confined", "C10_slash_never_matches", "C10_no_dir_no_open", "C10_dirbase",
     "C10_companion_flt_partial", "C10_companion_flt_full", "C10_companion_flt_counterexample", "C10_companion_mfp", "C10_companion_none", "C10_exec", "C10_exec_only_for_paths",
-    "C10_argv_single_argument", "C10_sites_guarded", "C10_fields_guarded", "C10_argv_tie", "C10_path_buffers_automatic")]
+    "C10_argv_single_argument", "C10_sites_guarded", "C10_fields_guarded", "C10_argv_tie", "C10_path_buffers_automatic",
+    "C10_history_inv", "C10_history_fields", "C10_history_stream_loads")]
 
 
 def scratch_dir(ck, tag):
